@@ -399,6 +399,12 @@ func body(c *kernel.Ctx) {
 			case 4: // replay an observed honest message to someone, later
 				if len(obs) > 0 {
 					m := obs[verifrt.Intn("a", len(obs))]
+					if verifrt.Intn("a", 2) == 1 && len(m.GetValues()) > 0 {
+						// ... with the value bodies replaced by other content of the same length, prefix, suffix and
+						// CRC-32/64 checksums (the signed header names the hash of the authentic body)
+						m = substituteBodies(m)
+						verifrt.Probe("adv:replay-with-substituted-value-body")
+					}
 					send(b, honest[verifrt.Intn("a", len(honest))], m)
 					verifrt.Probe("adv:replay")
 				}
@@ -435,8 +441,13 @@ func body(c *kernel.Ctx) {
 					for _, bb := range byzIDs {
 						commits = append(commits, sign(&pbv1.QBFTMsg{Type: 3, Duty: core.DutyToProto(duty), PeerIdx: int64(bb), Round: r0, ValueHash: candHash[claim][:]}, cl.Keys[bb]))
 					}
+					dm := mk(b, 5, r0, claim, 0, -1, commits)
+					if verifrt.Intn("a", 3) == 2 {
+						dm = substituteBodies(dm)
+						verifrt.Probe("adv:decided-with-substituted-value-body")
+					}
 					for _, to := range honest {
-						send(b, to, mk(b, 5, r0, claim, 0, -1, commits))
+						send(b, to, dm)
 					}
 					verifrt.Probe("adv:forged-decided")
 				}
@@ -458,4 +469,18 @@ func body(c *kernel.Ctx) {
 		verifrt.Probe("all-honest-decided")
 	}
 	cancel()
+}
+
+// substituteBodies returns a copy of m whose value bodies are replaced by same-length, same-checksum variants
+// with other content (see collide).
+func substituteBodies(m *pbv1.QBFTConsensusMsg) *pbv1.QBFTConsensusMsg {
+	cp := proto.Clone(m).(*pbv1.QBFTConsensusMsg)
+	for _, v := range cp.Values {
+		if n := len(v.GetValue()); n >= 64 {
+			if cb := collide(v.GetValue(), n/2-16, n/2+16); cb != nil {
+				v.Value = cb
+			}
+		}
+	}
+	return cp
 }
